@@ -370,6 +370,8 @@ def _structure_shards(tier):
     return out
 
 
+PRELOAD = ("prov.model", "prov.graph", "prov.dot", "pydot")
+
 OBLIGATIONS = [
     Obligation(name="token_kernel", fn=token_kernel, shards=_kernel_shards,
                desc="for EVERY identifier / label / attribute value / attribute name / URI of <=N code points, the label and URL strings the real prov.dot code hands to "
